@@ -381,7 +381,10 @@ def make_ecdsa(rng, clsmap):
         groups[slot] = gen.healthy_sigs(rng, slot + '-', 'secp256r1', 2)
       else:
         out = []
-        for i, a in enumerate(src[:2]):
+        # a "must" of a nonce check is a statement about the issuer's whole signature set (C08's margin counts signatures): when the
+        # source carries one, the copy is the whole set, so that the obligation still holds in a batch that contains only the copy
+        group_must = any(v == 'must' and k != 'CheckIssuerKey' for a in src for k, v in a.meta.get('crit', {}).items())
+        for i, a in enumerate(src if group_must else src[:2]):
           p = gen.pbmod().ECDSASignature()
           p.ecdsa_sig_info.CopyFrom(a.proto.ecdsa_sig_info)
           p.issuer_key_info.CopyFrom(a.proto.issuer_key_info)
